@@ -79,6 +79,12 @@ inductive ReadError where
 def readRows {α} (parse : Str → Option α) (d : Char) (s : Str) : List (List α) :=
   ((observedLines s).filter (fun l => !l.isEmpty)).map (fun l => (fields d l).filterMap parse)
 
+/-- the same with the outer loop written `while (getline(ifs, str)) BODY`: BODY runs once per successfully extracted
+    line, i.e. on the segments between newlines except an empty remainder after the last newline -/
+def readRowsWith {α} (rereadsLastLine : Bool) (parse : Str → Option α) (d : Char) (s : Str) : List (List α) :=
+  if rereadsLastLine then readRows parse d s
+  else ((fields '\n' s).filter (fun l => !l.isEmpty)).map (fun l => (fields d l).filterMap parse)
+
 def firstRagged {α} (c : Nat) : List (List α) → Nat → Option Nat
   | [], _ => none
   | r :: rs, i => if r.length ≠ c then some i else firstRagged c rs (i + 1)
